@@ -95,6 +95,10 @@ pub struct Interp<'tcx> {
     /// callee name patterns whose integer results are tracked as path facts
     pub track_ret: Vec<String>,
     pub fact_gen: u64,
+    pub lin_tier: bool,
+    pub atomize: Vec<String>,
+    pub atomize_count: HashMap<String, usize>,
+    pub ident_pats: Vec<String>,
     pub ret_key: u8,
     pub next_atom: usize,
     pub cur_bb: usize,
@@ -161,6 +165,10 @@ impl<'tcx> Interp<'tcx> {
             peel: Vec::new(),
             track_ret: Vec::new(),
             fact_gen: 0,
+            lin_tier: false,
+            atomize: Vec::new(),
+            atomize_count: HashMap::new(),
+            ident_pats: Vec::new(),
             ret_key: 3,
             next_atom: 0,
             cur_bb: 0,
@@ -508,11 +516,12 @@ impl<'tcx> Interp<'tcx> {
         // ids are never reused while a scalar region is alive, even across forked states
         let idu = self.next_atom.max(st.atoms.len());
         self.next_atom = idu + 1;
-        if st.atoms.len() < idu {
-            st.atoms.resize(idu, (i128::MIN, i128::MAX));
+        let sa = Rc::make_mut(&mut st.atoms);
+        if sa.len() < idu {
+            sa.resize(idu, (i128::MIN, i128::MAX));
         }
         let id = idu as AtomId;
-        st.atoms.push((lo, hi));
+        sa.push((lo, hi));
         let defs = Rc::make_mut(&mut self.atom_defs);
         if defs.len() <= id as usize {
             defs.resize(id as usize + 1, AtomDef { def: None });
